@@ -38,7 +38,8 @@ opcodes and assembler conveniences (NMOS 6502 JMP ($xxFF) guard, MSP430 0(Rn)->@
 source x destination cross product (every mode x register appears against a register operand, two-extension-word
 combinations only for MOV and CMP.B); MSP430X, other AVR devices, Z80 undocumented, Z180/Z380.
 
-Findings on the pinned tree (known_findings/C14.json, fix diffs in proposed_fixes/):
+Findings on the pinned tree (known_findings/C14.json; the diffs of proposed_fixes/C14-*.diff are applied to /repo by
+now, so the entries are "fixed" and suppress nothing):
   4004 ISZ at words 254/255 of a page checked against page of pc+1 (legal target rejected, unreachable one encoded);
   65SC02 / W65C02S JMP ($xxFF) rejected; 6800 JMP/JSR and MSP430 (every format) emit a truncated instruction next to
   the range error.
